@@ -501,6 +501,150 @@ impl Family for DuplicateFile {
     }
 }
 
+
+/// Process level: the same product (single placements, arguments {that lint, All, another lint}) through the real
+/// binary with a capturing generator, once without and once with the suppression: the exit status is the same,
+/// the error reports are the same, no warning other than the named lint(s) disappears and none appears, the
+/// generator runs in both runs or in neither, and the request it receives differs only by the allow attribute.
+pub struct BinaryDifferential {
+    ts: Vec<Template>,
+}
+impl BinaryDifferential {
+    pub fn new() -> Self {
+        BinaryDifferential { ts: templates() }
+    }
+    fn decode(&self, idx: u64) -> (&Template, Place, Arg, bool) {
+        let e = idx % 2 == 1;
+        let a = [Arg::That, Arg::All, Arg::Other][((idx / 2) % 3) as usize].clone();
+        let p = PLACES[1 + ((idx / 6) % 7) as usize];
+        let t = &self.ts[(idx / 42) as usize];
+        (t, p, a, e)
+    }
+}
+struct BinRun {
+    exit: Option<i32>,
+    errors: Vec<String>,
+    warnings: Vec<String>,
+    request: Option<Vec<u8>>,
+    crashed: bool,
+    stderr: String,
+}
+fn run_binary_c13(r: &Rendered) -> BinRun {
+    use crate::proc::{encode_reply, run, split_request, Gen, Install, Node as PNode, Scenario, Script, Step};
+    let mut sc = Scenario::default();
+    sc.tree.push(("f0.slice".into(), PNode::File(r.files[0].as_bytes().to_vec())));
+    sc.tree.push(("f1.slice".into(), PNode::File(r.files[1].as_bytes().to_vec())));
+    sc.gens.push(Gen { name: "capture".into(), install: Install::Script(Script(vec![Step::ReadAll, Step::Stdout(encode_reply(&[], &[])), Step::Exit(0)])) });
+    sc.argv = vec!["f0.slice".into(), "f1.slice".into(), "--disable-color".into(), "-G".into(), "{gen0}".into()];
+    sc.argv.extend(r.cli.iter().cloned());
+    let o = run(&sc, std::time::Duration::from_secs(30));
+    let stderr = o.stderr_text();
+    // a report = its header line and the location line that follows it
+    let mut errors = vec![];
+    let mut warnings = vec![];
+    let lines: Vec<&str> = stderr.lines().collect();
+    for (i, l) in lines.iter().enumerate() {
+        let loc = lines.get(i + 1).filter(|n| n.starts_with(" --> ")).copied().unwrap_or("");
+        if l.starts_with("error [") {
+            errors.push(format!("{l} {loc}"));
+        } else if l.starts_with("warning [") {
+            warnings.push(format!("{l} {loc}"));
+        }
+    }
+    let request = o.gens.get(0).and_then(|g| g.stdin.clone()).and_then(|s| split_request(&s, &[]).map(|r| r.to_vec()));
+    BinRun { exit: o.exit_code, errors, warnings, request, crashed: o.timed_out || o.signal.is_some() || o.panic_location().is_some(), stderr }
+}
+impl Family for BinaryDifferential {
+    fn name(&self) -> String {
+        format!("binary-differential/{} templates x 7 placements x 3 arguments x {{alone, next to an error}} through the real binary with a capturing generator, without and with the suppression", self.ts.len())
+    }
+    fn len(&self) -> u64 {
+        self.ts.len() as u64 * 42
+    }
+    fn hang_secs(&self) -> f64 {
+        120.0
+    }
+    fn describe(&self, idx: u64) -> Value {
+        let (t, p, a, e) = self.decode(idx);
+        let r = render(t, &[(p, a.clone())], e);
+        json!({"lint": t.lint, "element": t.name, "placement": format!("{p:?}"), "argument": format!("{a:?}"), "files": r.files, "argv": r.cli, "next_to_an_error": e})
+    }
+    fn run(&self, idx: u64) -> CaseOut {
+        let (t, p, a, e) = self.decode(idx);
+        let mut out = CaseOut::new(hash_str(&format!("c13bin{idx}")));
+        out.steps = 0;
+        out.validated = 1;
+        if !place_exists(t, p) {
+            out.class = "n/a".into();
+            return out;
+        }
+        let fam = "c13/binary";
+        let base_r = render(t, &[], e);
+        let with_r = render(t, &[(p, a.clone())], e);
+        let b = run_binary_c13(&base_r);
+        let w = run_binary_c13(&with_r);
+        out.steps = 2;
+        out.nontrivial = in_scope_target(p) == Some(true);
+        let desc = || format!("template {}/{} place {:?} arg {:?} error={}\n--- file 0 ---\n{}--- file 1 ---\n{}--- argv: {:?}\n--- stderr without ---\n{}\n--- stderr with ---\n{}", t.lint, t.name, p, a, e, with_r.files[0], with_r.files[1], with_r.cli, truncate(&b.stderr, 700), truncate(&w.stderr, 700));
+        if b.crashed || w.crashed {
+            out.violate(format!("{fam}/crash-or-hang"), desc());
+            return out;
+        }
+        if b.exit != w.exit {
+            out.violate(format!("{fam}/exit-status-changed"), format!("exit status {:?} without, {:?} with the suppression\n{}", b.exit, w.exit, desc()));
+        }
+        if b.errors != w.errors {
+            out.violate(format!("{fam}/error-reports-changed"), format!("errors without: {:?}\nerrors with: {:?}\n{}", b.errors, w.errors, desc()));
+        }
+        // warnings: nothing new; what disappeared is a lint the argument names
+        let code_of = |l: &str| l.split('[').nth(1).and_then(|r| r.split(']').next()).unwrap_or("").to_string();
+        let mut remaining = b.warnings.clone();
+        for wl in &w.warnings {
+            match remaining.iter().position(|x| x == wl) {
+                Some(i) => {
+                    remaining.remove(i);
+                }
+                None => out.violate(format!("{fam}/new-warning-appeared"), format!("{wl}\n{}", desc())),
+            }
+        }
+        for gone in &remaining {
+            if !names(&a, &code_of(gone), t) {
+                out.violate(format!("{fam}/unnamed-warning-disappeared"), format!("{gone}\n{}", desc()));
+            }
+        }
+        // generator: both or neither; request differs by the allow attribute only
+        match (&b.request, &w.request) {
+            (None, None) => {}
+            (Some(rb), Some(rw)) => {
+                if p == Place::Cli && rb != rw {
+                    out.violate(format!("{fam}/request-changed-by-a-command-line-option"), desc());
+                }
+                match (super::c08::decode_request(rb), super::c08::decode_request(rw)) {
+                    (Ok((s1, r1)), Ok((s2, r2))) => {
+                        let norm = |v: Vec<Node>| {
+                            v.into_iter()
+                                .map(|mut n| {
+                                    strip_allow(&mut n);
+                                    n
+                                })
+                                .collect::<Vec<_>>()
+                        };
+                        let (before, after) = ((norm(s1), norm(r1)), (norm(s2), norm(r2)));
+                        if before != after {
+                            let d = before.0.iter().chain(before.1.iter()).zip(after.0.iter().chain(after.1.iter())).find_map(|(x, y)| diff(x, y));
+                            out.violate(format!("{fam}/request-changed-beyond-the-attribute"), format!("{:?}\n{}", d.map(|d| (d.path_named, d.expected, d.observed)), desc()));
+                        }
+                    }
+                    (Err(e), _) | (_, Err(e)) => out.violate(format!("{fam}/request-undecodable"), format!("{e}\n{}", desc())),
+                }
+            }
+            _ => out.violate(format!("{fam}/generation-happens-in-one-run-only"), format!("generator ran without the suppression: {}, with: {}\n{}", b.request.is_some(), w.request.is_some(), desc())),
+        }
+        out.class = format!("{p:?}:exit{:?}:{}->{}warnings", w.exit, b.warnings.len(), w.warnings.len());
+        out
+    }
+}
+
 pub fn families(_tier: &str) -> Vec<Box<dyn Family>> {
-    vec![Box::new(DuplicateFile), Box::new(Product::new()), Box::new(PlacementPairs::new())]
+    vec![Box::new(DuplicateFile), Box::new(Product::new()), Box::new(BinaryDifferential::new()), Box::new(PlacementPairs::new())]
 }
